@@ -80,7 +80,7 @@ func runC17(c *RunCtx) {
 	lenPrograms(c, 16, 64)
 }
 
-func runC01Burst(c *RunCtx) {}
+func runC01Burst(c *RunCtx) { burstPrograms(c, 12, 48) }
 
 func gatePrograms(c *RunCtx, fam string, nq, nt int, b gateBias, o ExploreOpts) {
 	for v := 0; v < c.Q(nq, nt); v++ {
@@ -103,6 +103,8 @@ func runC02(c *RunCtx) {
 
 func runC04(c *RunCtx) {
 	gatePrograms(c, "gate", 32, 160, gateBias{Adapters: true, MaxOps: 16, Expiry: 0, Tune: false, Life: true}, gateOpts(c))
+	queuePrograms(c)
+	burstPrograms(c, 12, 60)
 }
 
 func runC18(c *RunCtx) {
